@@ -312,6 +312,6 @@ func TestC06(t *testing.T) {
 		"Kleene truth tables as printed in FHIRPath N1 §6.5")
 	runProperty(t, r,
 		Stage[c06Case]{Name: "cells", Enum: c06Enum, Run: c06Run},
-		Stage[c06Case]{Name: "laws", Gen: c06GenLaw, Run: c06RunLaw, N: pick(3000, 60000)},
+		Stage[c06Case]{Name: "laws", Gen: c06GenLaw, Run: c06RunLaw, N: pick(9000, 60000)},
 	)
 }
